@@ -107,11 +107,11 @@ Definition judge (c : case03) : list Z :=
   | CCube [p0; p1; p2; p3] tol ok vs ts wit =>
       let r := judge_bez (cubeB_f p0 p1 p2 p3) (cube_d1 p0 p1 p2 p3) (cube_pb2 p0 p1 p2 p3 (sqr (Kcube * tol))) (fun _ _ => false) p0 p3
                 (chk_flat_cube p0 p1 p2 p3 ts vs tol Kcube slack) Kcube tol ok vs ts wit in
-      (* the known finding (a piece inside which the tangent turns by >= 90 degrees) does not cover a whole cubic replaced by a
-         chord shorter than the tolerance: strokeCubicBezier always subdivides a loop whose end points (nearly) coincide *)
+      (* the known finding (a piece inside which the tangent turns by >= 90 degrees) does not cover a whole CLOSED cubic (p0 = p3) replaced by
+         its degenerate chord, i.e. dropped: strokeCubicBezier subdivides such a loop (near-closed hairpins, chord > 0, stay under the finding) *)
       match r, ts with
       | fl :: rest, [_; _] =>
-          if (0 <? Z.land fl 16)%Z && Qltb (dist2 p0 p3) (sqr tol) then (Z.lor (Z.land fl (Z.lnot 16)) 8) :: rest else r
+          if (0 <? Z.land fl 16)%Z && peqb p0 p3 then (Z.lor (Z.land fl (Z.lnot 16)) 8) :: rest else r
       | _, _ => r
       end
   | CCirc a tol ok vs => judge_circ a tol Kcirc slack ok vs
